@@ -150,7 +150,30 @@ def ro_workload(ver, maxbuf):
     return {"ver": ver, "maxbuf": maxbuf, "mode": "ro_faults", "streams": streams, "ops": ops}
 
 
+def rw_remove_workload(ver, maxbuf):
+    """Streams are removed (each call issued twice: a failed release is retried), then two new
+    streams are written into the released space and flushed; every stream that no failed call
+    touched must read back exactly - a sector handed out twice shows up as one stream's bytes
+    inside the other."""
+    f = gens.Fill()
+    rng = random.Random(23)
+    streams = [{"name": "bar", "runs": f.runs(rng, 5000)}, {"name": "d", "runs": f.runs(rng, 9000)},
+               {"name": "m", "runs": f.runs(rng, 300)}, {"name": "n", "runs": f.runs(rng, 200)}]
+    w = lambda n: {"op": "write", "runs": f.runs(rng, n)}
+    FL = [{"op": "flush"}, {"op": "position"}, {"op": "flush"}, {"op": "fresh_read"}]
+    ops = [{"op": "open"}]
+    for nm in ("d", "m"):
+        ops += [{"op": "remove_stream", "name": nm}, {"op": "remove_stream", "name": nm}, {"op": "exists", "name": nm}]
+    for nm, n in (("b", 4500), ("c", 4500), ("s", 100), ("t", 100)):
+        ops += [{"op": "create_stream", "name": nm}, {"op": "create_stream", "name": nm}, w(n), {"op": "position"}] + FL + [{"op": "close"}]
+    for nm in ("b", "c", "s", "t", "bar", "n"):
+        ops += [{"op": "open_stream", "name": nm}, {"op": "open_stream", "name": nm}, {"op": "fresh_read"}, {"op": "read_to_end"}, {"op": "close"}]
+    return {"ver": ver, "maxbuf": maxbuf, "mode": "rw_faults", "streams": streams, "ops": ops}
+
+
 def rw_workload(ver, maxbuf, variant=0):
+    if variant == 2:
+        return rw_remove_workload(ver, maxbuf)
     f = gens.Fill()
     rng = random.Random(11 + variant)
     streams = [{"name": "bar", "runs": f.runs(rng, 5000)}]
